@@ -1267,3 +1267,80 @@ func ThinTarget(p *Prog, fn *ssa.Function) (*ssa.Function, *ssa.Call) {
 	}
 	return g, call
 }
+
+
+// ReturnedClosure: the closure of f that f returns (directly, through conversions, or as the result of a call it is
+// handed to - `return Wrap(func…)`) on its non-error returns; nil when there is none or it is not unique. Other closures
+// of f (deferred functions, trace helpers) do not matter.
+func ReturnedClosure(p *Prog, f *ssa.Function) *ssa.Function {
+	var out *ssa.Function
+	n := 0
+	Instrs(f, func(ins ssa.Instruction) {
+		r, ok := ins.(*ssa.Return)
+		if !ok || r.Block() == f.Recover || len(r.Results) == 0 {
+			return
+		}
+		v := Unwrap(Resolve(RetVals(r)[0]))
+		if fv := ResolveFuncValue(p, v); fv != nil && fv.Fn.Parent() == f {
+			if out != fv.Fn {
+				n++
+			}
+			out = fv.Fn
+		}
+	})
+	if n != 1 {
+		return nil
+	}
+	return out
+}
+
+// ClosureArgOf: the closure of f that is passed as an argument of a call satisfying pred (unique), nil otherwise.
+func ClosureArgOf(p *Prog, f *ssa.Function, pred func(*ssa.CallCommon) bool) *ssa.Function {
+	var out *ssa.Function
+	n := 0
+	Instrs(f, func(ins ssa.Instruction) {
+		ci, ok := ins.(ssa.CallInstruction)
+		if !ok || !pred(ci.Common()) {
+			return
+		}
+		for _, a := range ci.Common().Args {
+			if fv := ResolveFuncValue(p, Unwrap(a)); fv != nil && fv.Fn.Parent() == f {
+				if out != fv.Fn {
+					n++
+				}
+				out = fv.Fn
+			}
+		}
+	})
+	if n != 1 {
+		return nil
+	}
+	return out
+}
+
+// ClosureContaining: the closure in f's nest (unique) that contains an instruction satisfying pred.
+func ClosureContaining(f *ssa.Function, pred func(ssa.Instruction) bool) *ssa.Function {
+	var out *ssa.Function
+	n := 0
+	var visit func(g *ssa.Function)
+	visit = func(g *ssa.Function) {
+		for _, a := range g.AnonFuncs {
+			has := false
+			Instrs(a, func(ins ssa.Instruction) {
+				if pred(ins) {
+					has = true
+				}
+			})
+			if has {
+				out = a
+				n++
+			}
+			visit(a)
+		}
+	}
+	visit(f)
+	if n != 1 {
+		return nil
+	}
+	return out
+}
